@@ -1,71 +1,185 @@
-"""Gen/Consts.lean: numeric constants and small decision expressions the theorems depend on."""
+"""Gen/Consts.lean: numeric constants and small decision expressions the theorems depend on.
+
+Read by VALUE and by ROLE, not by spelling or variable name (helpers: astutil_G1.py):
+
+  balanceInc        the step of the balancer in `ArchSemantics.assign_optimal_throughput`: the one constant
+                    that the `x[i] -= c` / `x[j] += c` transfers inside the `for _ in range(int(cycles * K))`
+                    loop use, with `K == 1 / c` checked.  The constant may be written `0.01`, `1e-2`,
+                    `1 / 100`, be a local, a class attribute (`self.X` / `ArchSemantics.X`) or a module
+                    constant, under any name.
+  balanceCapDigits  the (single) digit count of all `round(x, k)` / `round(x, ndigits=k)` of that function
+  tpSumDigits       the `k` of `round(sum(col), k)` in `get_throughput_sum` (sum may be hoisted to a local)
+  tpSumSkipValue    the constant `c` of the filter `instr.throughput != c` (also `c != instr.throughput`,
+                    `not instr.throughput == c`) that selects the `port_pressure` rows; the rows may be
+                    built by a comprehension or by an append loop with `if` / `continue` guard.
+
+Still insisted on (a change of these is a change of behaviour): every transfer uses the same constant and
+both directions occur; the trip count is `int(cycles * (1 / c))` up to commutation; one rounding precision in
+the balancer; the filter is a single `!=` test on `.throughput`; `zip(*rows)` column sums.
+No module of the analysed tree is imported or executed.
+"""
 import ast
+import os
+import sys
 
-import translate as T
-from translate import TranslateError, generator, parse, find_func, rat, HEADER
+sys.path.insert(0, os.path.dirname(os.path.abspath(__file__)))
+import astutil_G1 as U  # noqa: E402
+
+# the plug-in and its helpers are inputs too: a change of either regenerates the file
+SELF = ["../verif-self:tools/gen/consts.py", "../verif-self:tools/gen/astutil_G1.py"]
+
+from translate import TranslateError, generator, rat, HEADER  # noqa: E402
+
+SRC = "osaca/semantics/arch_semantics.py"
 
 
-def _num(node):
-    if isinstance(node, ast.Constant) and isinstance(node.value, (int, float)) and not isinstance(node.value, bool):
-        return node.value
-    if isinstance(node, ast.UnaryOp) and isinstance(node.op, ast.USub):
-        return -_num(node.operand)
-    raise TranslateError("expected numeric literal at line %s" % getattr(node, "lineno", "?"))
+def _round_digits(call, sc, what):
+    """`round(x, k)` / `round(x, ndigits=k)` -> (x, k) ; None for a one-argument round"""
+    if not (isinstance(call, ast.Call) and isinstance(call.func, ast.Name) and call.func.id == "round"):
+        return None
+    if sc.lookup("round") is not None or sc.is_param("round"):
+        raise TranslateError("%s: `round` is shadowed" % what)
+    k = None
+    if len(call.args) == 2 and not call.keywords:
+        k = call.args[1]
+    elif len(call.args) == 1 and len(call.keywords) == 1 and call.keywords[0].arg == "ndigits":
+        k = call.keywords[0].value
+    elif len(call.args) == 1 and not call.keywords:
+        return None
+    else:
+        raise TranslateError("%s: unexpected round() call at line %d" % (what, call.lineno))
+    ok, v = sc.try_ev(k)
+    if ok and v is None:
+        return None
+    return call.args[0], sc.ev_int(k, "%s: digits of round()" % what)
 
 
-@generator("Consts", ["osaca/semantics/arch_semantics.py", "osaca/semantics/kernel_dg.py"])
-def gen_consts():
-    from fractions import Fraction
-
-    ta = parse("osaca/semantics/arch_semantics.py")
-    f = find_func(ta, "assign_optimal_throughput", "ArchSemantics")
-    inc = None
+def _balancer(cls):
+    sc = cls.fn("assign_optimal_throughput")
+    f = sc.node
+    par = sc.par
+    steps = []       # (sign, value, node)
     for node in ast.walk(f):
-        if isinstance(node, ast.Assign) and len(node.targets) == 1 and isinstance(node.targets[0], ast.Name) \
-                and node.targets[0].id == "INC":
-            inc = _num(node.value)
-    if inc is None:
-        raise TranslateError("assign_optimal_throughput: INC not found")
-    # round(..., k) calls on min(instr_ports)/min(differences): the digit count of the cap tests
+        if isinstance(node, ast.AugAssign) and isinstance(node.op, (ast.Add, ast.Sub)) \
+                and isinstance(node.target, ast.Subscript):
+            ok, v = sc.try_ev(node.value)
+            if ok:
+                if isinstance(v, bool) or not isinstance(v, (int, float)):
+                    raise TranslateError("assign_optimal_throughput: constant step %r is not a number" % (v,))
+                steps.append((isinstance(node.op, ast.Add), v, node))
+    if not steps:
+        raise TranslateError("assign_optimal_throughput: no constant `x[i] += c` / `x[i] -= c` transfer found")
+    vals = {v for _, v, _ in steps}
+    if len(vals) != 1:
+        raise TranslateError("assign_optimal_throughput: transfers use different constants %r" % sorted(vals))
+    if {s for s, _, _ in steps} != {True, False}:
+        raise TranslateError("assign_optimal_throughput: transfers go in one direction only")
+    inc = vals.pop()
+    if not inc > 0:
+        raise TranslateError("assign_optimal_throughput: step %r is not positive" % inc)
+    # the loop they are in: for _ in range(int(cycles * (1 / INC)))
+    loops = set()
+    for _, _, n in steps:
+        ch = n
+        while ch in par and not isinstance(par[ch], (ast.For, ast.While)):
+            ch = par[ch]
+        loops.add(par.get(ch))
+    if len(loops) != 1 or not isinstance(next(iter(loops)), ast.For):
+        raise TranslateError("assign_optimal_throughput: the transfers are not in one common for loop")
+    loop = loops.pop()
+    it = sc.deref(loop.iter)
+    if not (U.call_name(it) == "range" and isinstance(it.func, ast.Name) and len(it.args) == 1 and not it.keywords):
+        raise TranslateError("assign_optimal_throughput: balancing loop is not `for _ in range(n)`")
+    n = sc.deref(it.args[0])
+    if not (U.call_name(n) == "int" and isinstance(n.func, ast.Name) and len(n.args) == 1 and not n.keywords):
+        raise TranslateError("assign_optimal_throughput: trip count is not int(...)")
+    e = sc.deref(n.args[0])
+    if not (isinstance(e, ast.BinOp) and isinstance(e.op, ast.Mult)):
+        raise TranslateError("assign_optimal_throughput: trip count is not int(cycles * K)")
+    ks = [v for ok, v in (sc.try_ev(e.left), sc.try_ev(e.right)) if ok]
+    if len(ks) != 1 or isinstance(ks[0], bool) or not isinstance(ks[0], (int, float)):
+        raise TranslateError("assign_optimal_throughput: trip count is not <variable> * <constant>")
+    if ks[0] != 1 / inc:
+        raise TranslateError("assign_optimal_throughput: trip count factor %r is not 1 / step (%r)" % (ks[0], 1 / inc))
+    # round(..., k): the digit count of the cap tests
     cap_digits = set()
     for node in ast.walk(f):
-        if isinstance(node, ast.Call) and isinstance(node.func, ast.Name) and node.func.id == "round" and len(node.args) == 2:
-            cap_digits.add(_num(node.args[1]))
+        r = _round_digits(node, sc, "assign_optimal_throughput")
+        if r is not None:
+            cap_digits.add(r[1])
     if len(cap_digits) != 1:
-        raise TranslateError("assign_optimal_throughput: expected one rounding precision, got %r" % cap_digits)
-    g = find_func(ta, "get_throughput_sum", "ArchSemantics")
+        raise TranslateError("assign_optimal_throughput: expected one rounding precision, got %r" % sorted(cap_digits))
+    return inc, cap_digits.pop()
+
+
+def _is_attr_of(node, attr, target):
+    return (isinstance(node, ast.Attribute) and node.attr == attr and isinstance(node.value, ast.Name)
+            and isinstance(target, ast.Name) and node.value.id == target.id)
+
+
+def _tp_sum(cls):
+    sc = cls.fn("get_throughput_sum")
+    g = sc.node
     digits = None
     for node in ast.walk(g):
-        if isinstance(node, ast.Call) and isinstance(node.func, ast.Name) and node.func.id == "round" and len(node.args) == 2:
-            inner = node.args[0]
-            if not (isinstance(inner, ast.Call) and isinstance(inner.func, ast.Name) and inner.func.id == "sum"):
+        r = _round_digits(node, sc, "get_throughput_sum")
+        if r is not None:
+            inner = sc.deref(r[0])
+            if not (U.call_name(inner) == "sum" and isinstance(inner.func, ast.Name) and len(inner.args) == 1):
                 raise TranslateError("get_throughput_sum: round() is not applied to sum(col)")
-            digits = _num(node.args[1])
+            if digits is not None and digits != r[1]:
+                raise TranslateError("get_throughput_sum: two rounding precisions")
+            digits = r[1]
     if digits is None:
         raise TranslateError("get_throughput_sum: round(sum(col), k) not found")
     # the filter: [instr.port_pressure for instr in kernel if instr.throughput != 0.0]
-    flt = None
-    for node in ast.walk(g):
-        if isinstance(node, ast.ListComp) and len(node.generators) == 1 and len(node.generators[0].ifs) == 1:
-            c = node.generators[0].ifs[0]
-            elt = node.elt
-            if (isinstance(c, ast.Compare) and len(c.ops) == 1 and isinstance(c.ops[0], ast.NotEq)
-                    and isinstance(c.left, ast.Attribute) and c.left.attr == "throughput"
-                    and isinstance(elt, ast.Attribute) and elt.attr == "port_pressure"):
-                flt = _num(c.comparators[0])
-    if flt is None:
+    comps = [U.comp_view(n, sc) for n in ast.walk(g) if isinstance(n, ast.ListComp)]
+    comps += [U.comp_view(ast.Name(id=nm, ctx=ast.Load()), sc) for nm, b in sc.bind.items()
+              if len(b) == 1 and b[0][0] == "assign" and not isinstance(b[0][1], ast.ListComp)]
+    flt = []
+    for c in comps:
+        if c is None or not _is_attr_of(c.elt, "port_pressure", c.target):
+            continue
+        conds = []
+        for t in c.ifs:
+            conds.extend(U.atoms(t, True))
+        if len(conds) != 1:
+            raise TranslateError("get_throughput_sum: the port_pressure rows have %d filter conditions" % len(conds))
+        a, pol = conds[0]
+        if not (isinstance(a, ast.Compare) and len(a.ops) == 1 and isinstance(a.ops[0], ast.Eq) and pol is False):
+            raise TranslateError("get_throughput_sum: filter is not `instr.throughput != <const>`")
+        l, r = a.left, a.comparators[0]
+        if _is_attr_of(r, "throughput", c.target):
+            l, r = r, l
+        if not _is_attr_of(l, "throughput", c.target):
+            raise TranslateError("get_throughput_sum: filter does not test instr.throughput")
+        flt.append(sc.ev_num(r, "get_throughput_sum: filter constant"))
+    if len(flt) != 1:
         raise TranslateError("get_throughput_sum: filter `instr.throughput != <const>` on port_pressure not found")
-    if not any(isinstance(n, ast.Call) and isinstance(n.func, ast.Name) and n.func.id == "zip" for n in ast.walk(g)):
+    if not any(U.call_name(n) == "zip" and isinstance(n.func, ast.Name) and len(n.args) == 1
+               and isinstance(n.args[0], ast.Starred) for n in ast.walk(g)):
         raise TranslateError("get_throughput_sum: zip(*port_pressures) not found")
+    return digits, flt[0]
+
+
+@generator("Consts", [SRC, "osaca/semantics/kernel_dg.py"] + SELF)
+def gen_consts():
+    U.reset_cache()
+    cls = U.mod_scope(SRC).cls("ArchSemantics")
+    inc, cap = _balancer(cls)
+    digits, flt = _tp_sum(cls)
+    for k in (cap, digits):
+        if k < 0:
+            raise TranslateError("negative rounding precision %d" % k)
 
     out = [HEADER, "namespace OsacaVerif.Gen\n"]
     out.append("/-- `INC` of `assign_optimal_throughput` (the decimal literal, exactly) -/")
-    out.append("def balanceInc : Rat := %s\n" % rat(repr(inc)))
+    out.append("def balanceInc : Rat := %s\n" % rat(U.dec_text(inc)))
     out.append("/-- digits of the `round(min(...), k) <= 0` cap tests in the balancer -/")
-    out.append("def balanceCapDigits : Nat := %d\n" % cap_digits.pop())
+    out.append("def balanceCapDigits : Nat := %d\n" % cap)
     out.append("/-- digits of `round(sum(col), k)` in `get_throughput_sum` -/")
     out.append("def tpSumDigits : Nat := %d\n" % digits)
     out.append("/-- lines are summed iff `instr.throughput != <this>` -/")
-    out.append("def tpSumSkipValue : Rat := %s\n" % rat(repr(flt)))
+    out.append("def tpSumSkipValue : Rat := %s\n" % rat(U.dec_text(flt)))
     out.append("end OsacaVerif.Gen\n")
     return "\n".join(out)
